@@ -1,6 +1,6 @@
 SPECIFICATION Spec
 CONSTANT Grid <- GridThoroughD
-CONSTANT ShuffleAll = TRUE
+CONSTANT ShuffleAll = FALSE
 INVARIANT TypeOK
 INVARIANT BurnExact
 INVARIANT SumPostIsOne
